@@ -13,4 +13,10 @@ def run(rep, fb, tier):
     pyrules.rule_py_dispatch(rep, modules=["operations/convert.py", "_util.py", "partition.py", "highlevel.py"], floor=30)
     pyrules.rule_py_borrowed(rep, ["operations/convert.py", "_util.py", "highlevel.py", "partition.py"], floor=5)
     pyrules.rule_py_categories(rep)
+    from ..rules import pyrules as _pr
+    _pr.rule_py_unreachable(rep)
+    _pr.rule_py_callback_layout(rep)
+    from ..rules import pybind as _pb, pyrules as _pr2
+    _pb.rule_py_bindings(rep)
+    _pr2.rule_py_call_signature(rep)
     rep.units = fb.units + ["src/awkward/operations/convert.py, highlevel.py, _util.py, partition.py (ast)"]
